@@ -516,3 +516,54 @@ OBLIGATIONS.append(Ob('batch_lists', ob_batch_lists, ['0 <= n < 7', '0 <= start 
                       data='-', selectors='length 1..7, start 1..7, size 1..3, orphan 0..2, overlap 0..2 (< size), bit "body reads the lists on every row": next-batches / previous-batches '
                       'against chains built from the statement\'s window rule', outside='sequences longer than 7; size > 3',
                       stubs='render runs untraced once the parameters are fixed on the path'))
+
+
+# ---------------------------------------------------------------- wave 4: the 'previous' and 'next' tag modes
+T_PREV = cooked('<dtml-in s previous start=a size=c orphan=d overlap=e>P<dtml-call "rec(_)"><dtml-else>NOPREV</dtml-in>')
+T_NEXT = cooked('<dtml-in s next start=a size=c orphan=d overlap=e>N<dtml-call "rec(_)"><dtml-else>NONEXT</dtml-in>')
+
+
+def ob_prev_next_tags(n: int, start: int, size: int, orphan: int, overlap: int) -> bool:
+    """<dtml-in ... previous> / <dtml-in ... next> render their body once exactly when elements precede / remain (else their else body)
+    and announce the SAME neighbouring batches as the batch itself announces on its first / last row (next starts at end+1-overlap,
+    previous ends at start-1+overlap)"""
+    from crosshair.tracers import NoTracing
+    nn, st, sz, orp = pick_small(n, 7) + 1, pick_small(start, 7) + 1, pick_small(size, 3) + 1, pick_small(orphan, 3)
+    ov = pick_small(overlap, 3)
+    with NoTracing():
+        if ov >= sz or st > nn:
+            return True
+        seq = list(range(1, nn + 1))
+        s, e = ref_window(st, 0, sz, orp, nn)
+        got_p, got_n, rows = [], [], []
+        out_p = T_PREV(s=seq, a=st, c=sz, d=orp, e=ov, rec=lambda md: got_p.append((md['previous-sequence-start-number'], md['previous-sequence-end-number'], md['previous-sequence-size'])) or '')
+        out_n = T_NEXT(s=seq, a=st, c=sz, d=orp, e=ov, rec=lambda md: got_n.append((md['next-sequence-start-number'], md['next-sequence-end-number'], md['next-sequence-size'])) or '')
+
+        def rec(md):
+            r = [md['sequence-number']]
+            for k in ('previous-sequence-start-number', 'previous-sequence-end-number', 'next-sequence-start-number', 'next-sequence-end-number'):
+                try:
+                    r.append(md[k])
+                except KeyError:
+                    r.append(None)
+            rows.append(r)
+            return ''
+        T_LISTS(s=seq, a=st, c=sz, d=orp, e=ov, rec=rec)
+        if s > 1:
+            ps, pe = ref_window(0, s - 1 + ov, sz, orp, nn)
+            if out_p != 'P' or got_p != [(ps, pe, pe + 1 - ps)] or rows[0][1:3] != [ps, pe]:
+                return False
+        elif out_p != 'NOPREV' or got_p:
+            return False
+        if e < nn:
+            ns_, ne = ref_window(e + 1 - ov, 0, sz, orp, nn)
+            if out_n != 'N' or got_n != [(ns_, ne, ne + 1 - ns_)] or rows[-1][3:5] != [ns_, ne]:
+                return False
+        elif out_n != 'NONEXT' or got_n:
+            return False
+        return True
+
+
+OBLIGATIONS.append(Ob('previous_next_tags', ob_prev_next_tags, ['0 <= n < 7', '0 <= start < 7', '0 <= size < 3', '0 <= orphan < 3', '0 <= overlap < 3'], timeout=tier(250, 900), path_timeout=60,
+                      data='-', selectors='length 1..7, start 1..7, size 1..3, orphan 0..2, overlap 0..2 (< size): <dtml-in previous> / <dtml-in next> tags against the window rule and against the batch\'s own announcements',
+                      outside='sequences longer than 7; size > 3', stubs='render runs untraced once the parameters are fixed on the path'))
